@@ -184,3 +184,77 @@ def random_tm(rng, nmax=4, halting_start=0.1):
     if rng.random() < 0.1:   # transitions out of halting states (never used by a correct simulator)
         delta.append([qa, rng.choice(Gamma), rng.choice(Q), rng.choice(Gamma), 'R'])
     return {'Q': Q, 'Sigma': Sigma, 'Gamma': Gamma, 'delta': delta, 'q0': q0, 'qa': qa, 'qr': qr, 'blank': blank}
+
+
+# ------------------------------------------------------------------ CFG
+UPPER = 'SABCDEFGHIJKLMNOPQRTUVWXYZ'
+
+
+def random_cfg(rng, nvars=None, Sigma=None, maxlen=3, cnf=False, simple=True):
+    """Simple-format grammar: single upper-case variables, lower-case terminals."""
+    nv = nvars or rng.randint(1, 4)
+    V = list(UPPER[:nv])
+    if rng.random() < 0.2:
+        V = rng.sample(list(UPPER), nv)
+    Sigma = Sigma or rng.choice([['a', 'b'], ['a'], ['a', 'b', 'c']])
+    R = []
+    aid = 0
+    for A in V:
+        k = rng.randint(1, 3)
+        for _ in range(k):
+            if cnf:
+                p = rng.random()
+                if p < 0.45:
+                    rhs = [['t', rng.choice(Sigma)]]
+                else:
+                    body = [v for v in V if v != V[0]] or None
+                    if body is None:
+                        rhs = [['t', rng.choice(Sigma)]]
+                    else:
+                        rhs = [['v', rng.choice(body)], ['v', rng.choice(body)]]
+            else:
+                p = rng.random()
+                if p < 0.15:
+                    rhs = []
+                elif p < 0.3:
+                    rhs = [['v', rng.choice(V)]]
+                else:
+                    n = rng.randint(1, maxlen)
+                    rhs = [(['v', rng.choice(V)] if rng.random() < 0.45 else ['t', rng.choice(Sigma)]) for _ in range(n)]
+            if [A, rhs] not in [[r[0], r[2]] for r in R] or rng.random() < 0.1:
+                R.append([A, aid, rhs])
+                aid += 1
+    if cnf and rng.random() < 0.3:
+        R.append([V[0], aid, []])
+    used = sorted({n for _, _, rhs in R for k, n in rhs if k == 't'})
+    return {'V': V, 'Sigma': used if rng.random() < 0.8 else sorted(set(used) | set(Sigma)), 'R': R, 'S': V[0]}
+
+
+# ------------------------------------------------------------------ PDA
+def random_pda(rng, nmax=3, tmax=6, markers=False):
+    n = rng.randint(1, nmax)
+    scheme = rng.choice([lambda i: 'q%d' % i, lambda i: 's%d' % i, lambda i: ['q_accept1', 'q_initial1', 'M1', 'q_drain1'][i]])
+    Q = [scheme(i) for i in range(n)]
+    Sigma = rng.choice([['a', 'b'], ['a'], ['a', 'b'], ['0', '1']])
+    Gamma = rng.choice([['x'], ['x', 'y'], ['x', 'y'], ['A', 'B']])
+    if markers and rng.random() < 0.5:
+        Gamma = Gamma + rng.choice([['$'], ['$', '@'], ['∅'], ['#']])
+    eps = rng.choice(['_', '_', 'ε', ''])
+    delta = {}
+    style = rng.random()
+    for _ in range(rng.randint(1, tmax)):
+        p, q = rng.choice(Q), rng.choice(Q)
+        a = rng.choice(Sigma + [eps]) if rng.random() < 0.75 else eps
+        if style < 0.3:      # push/pop only
+            if rng.random() < 0.5:
+                u, v = eps, rng.choice(Gamma)
+            else:
+                u, v = rng.choice(Gamma), eps
+        else:
+            u = rng.choice(Gamma + [eps, eps])
+            v = rng.choice(Gamma + [eps, eps])
+        delta.setdefault((p, a, u), set()).add((q, v))
+    r = rng.random()
+    F = [] if r < 0.08 else list(Q) if r < 0.2 else [q for q in Q if rng.random() < 0.5]
+    d = [[p, a, u, sorted([list(t) for t in T])] for (p, a, u), T in delta.items()]
+    return {'Q': Q, 'Sigma': Sigma, 'Gamma': Gamma, 'delta': d, 'q0': Q[0], 'F': F, 'eps': eps, 'dd': True}
